@@ -260,17 +260,25 @@ fn check(sim: &Sim) -> Result<(usize, usize, bool), Bad> {
         };
         entities += 1;
     }
-    // a fresh content proxy over the same storage must show what the live one shows
+    repo_content_live_vs_rebuilt(sim.w())?;
+    // publishers: access vs API
+    Ok((entities, commands, snap))
+}
+
+/// A fresh content proxy over the same storage (last snapshot plus the
+/// write-ahead log) must show what the live one shows.
+pub fn repo_content_live_vs_rebuilt(w: &crate::world::World) -> Result<(), Bad> {
+    let storage = w.rt.storage();
     let fresh = krill::server::pubd::RepositoryContentProxy::create(storage).map_err(|e| bad("c06-open", "repository content", e.to_string()))?;
     let mut rebuilt = serde_json::to_value(fresh.stats().map_err(|e| bad("c06-replay-fails", "repository content", e.to_string()))?).unwrap_or(Value::Null);
-    let mut live = serde_json::to_value(sim.w().repo().repo_stats().map_err(|e| bad("repo-stats", "error", e.to_string()))?).unwrap_or(Value::Null);
+    let mut live = serde_json::to_value(w.repo().repo_stats().map_err(|e| bad("repo-stats", "error", e.to_string()))?).unwrap_or(Value::Null);
     sort_arrays(&mut rebuilt);
     sort_arrays(&mut live);
     if let Some(d) = first_diff(&live, &rebuilt, String::new()) {
         return Err(bad("c06-live-vs-rebuilt", "repository content", format!("repository stats differ at {d}")));
     }
-    for p in sim.w().repo().publishers().unwrap_or_default() {
-        let live = sim.w().repo().list(&p).map_err(|e| bad("list", "error", e.to_string()))?;
+    for p in w.repo().publishers().unwrap_or_default() {
+        let live = w.repo().list(&p).map_err(|e| bad("list", "error", e.to_string()))?;
         let rebuilt = fresh.list_reply(&p).map_err(|e| bad("c06-replay-fails", "repository content", e.to_string()))?;
         let mut l: Vec<String> = live.elements().iter().map(|e| format!("{} {}", e.uri(), e.hash())).collect();
         let mut r: Vec<String> = rebuilt.elements().iter().map(|e| format!("{} {}", e.uri(), e.hash())).collect();
@@ -280,8 +288,7 @@ fn check(sim: &Sim) -> Result<(usize, usize, bool), Bad> {
             return Err(bad("c06-live-vs-rebuilt", "repository content", format!("publisher {p}: live list reply differs from the rebuilt one")));
         }
     }
-    // publishers: access vs API
-    Ok((entities, commands, snap))
+    Ok(())
 }
 
 impl Prop for C06 {
